@@ -50,11 +50,13 @@ namespace cds_verif { namespace atomics {
             {
                 if ( !cds_verif::active()) { v().store( val, mo ); return; }
                 cds_verif::point( addr(), K_STORE );
+                // "did this step change a value" compares with the previous content. For a store into a freshly allocated block that
+                // content must not depend on the history of the process (the flag decides the cost of other threads' yields, hence the
+                // shape of the schedule tree): the engine makes malloc fill every block with a fixed pattern (M_PERTURB, see main_run)
+                // and default-constructed instrumented atomics are zero.
+                T old = v().load( memory_order_relaxed );
                 v().store( val, mo );
-                // A plain store always counts as a value-changing step. Comparing with the previous content would make the flag depend on
-                // what a freshly allocated block happened to contain (libcds initialises many nodes by store() into raw memory), i.e.
-                // on heap addresses - and the flag decides the cost of other threads' yields, hence the shape of the schedule tree.
-                cds_verif::after_op( addr(), K_STORE, int( mo ), true, true );
+                cds_verif::after_op( addr(), K_STORE, int( mo ), true, differs( old, val ));
             }
 
             T load( memory_order mo = memory_order_seq_cst ) const volatile noexcept
